@@ -13,6 +13,10 @@ Gen.MacroTables
                     "name value" sent through Macro::parse + retain + push (the 9f7cdb8 fix)
   argsShareDisabled preprocess.rs `apply_single_macro`: macro arguments are expanded by
                     `apply_macros_internal(.., macro_disabled, ..)` (the d00f5aa fix), not by `apply_macros`
+  searchPositions   every `MacroSearchPosition { next_pos, early_function_pos, last_macro_function_index }` literal of
+                    `apply_macros_internal` / `apply_single_macro` (where the scan resumes after each operation), the
+                    definitions of `new_end` / `tokens_added`, and the conditions of `find_single_macro` that consult
+                    the three fields
 """
 import re
 
@@ -113,6 +117,77 @@ def register(gen, T):
         shares = bool(re.search(r'apply_macros_internal\( arg\.to_vec\(\), macro_defs, macro_disabled, false,', seg))
         out.append("/-- macro arguments are expanded with the *current* `macro_disabled` vector -/\n")
         out.append(f"def argsShareDisabled : Bool := {'true' if shares else 'false'}\n\n")
+
+        # --- where the scan resumes: the MacroSearchPosition literals -----------------------------------
+        from rustsrc import matching as _matching
+        def search_positions(body, what):
+            res = []
+            for mm in re.finditer(r'MacroSearchPosition\s*\{', body):
+                j = mm.end() - 1
+                e = _matching(body, j)
+                fields = {}
+                for part in split_top(body[j + 1:e], ','):
+                    part = part.strip()
+                    if not part:
+                        continue
+                    k, _, v = part.partition(':')
+                    fields[k.strip()] = normws(v)
+                if sorted(fields) != ['early_function_pos', 'last_macro_function_index', 'next_pos']:
+                    raise ExtractError(f"{what}: MacroSearchPosition literal with fields {sorted(fields)}")
+                res.append([fields['next_pos'], fields['early_function_pos'], fields['last_macro_function_index']])
+            return res
+        ami = fn_body(pre, "apply_macros_internal")
+        sp = search_positions(ami, "apply_macros_internal") + search_positions(asm, "apply_single_macro")
+        if len(sp) != 5:
+            raise ExtractError(f"expected 5 MacroSearchPosition literals (start, User, Defined, Concat, None), found {len(sp)}")
+        out.append("/-- `[next_pos, early_function_pos, last_macro_function_index]` of every `MacroSearchPosition` literal: the\n"
+                   "start of `apply_macros_internal`, then the arms `User`, `Defined`, `Concat`, `None` of `apply_single_macro` -/\n")
+        out.append("def searchPositions : List (List String) :=\n  " +
+                   T.lean_list(T.lean_list(lean_str(x) for x in row) for row in sp) + "\n\n")
+        asm_n = normws(asm)
+        lets = []
+        for name in ("tokens_added", "new_end", "end"):
+            m2 = re.search(r'let ' + name + r' = ([^;]+);', asm_n)
+            if not m2:
+                raise ExtractError(f"apply_single_macro: `let {name}` not found")
+            lets.append(m2.group(1).strip())
+        out.append("/-- `let tokens_added = ..; let new_end = ..; let end = ..;` in the `User` arm -/\n")
+        out.append("def userArmLets : List String := " + T.lean_list(lean_str(x) for x in lets) + "\n\n")
+        fsm = normws(fn_body(pre, "find_single_macro"))
+        uses = []
+        for pat in (r'let mut i = (search_pos\.[a-z_]+);',
+                    r'if (search_pos\.last_macro_function_index == macro_index && i < search_pos\.next_pos) \{ continue; \}',
+                    r'if (activate_pos < search_pos\.next_pos) \{ continue; \}',
+                    r'(activate_pos = tokens\.len\(\) - trimmed\.len\(\));',
+                    r'let (trimmed = trim_whitespace_start\(&tokens\[i \+ 1\.\.\]\));',
+                    r'while (pos\.next_pos < tokens\.len\(\)) \{'):
+            src_text = normws(ami) if pat.startswith('while') else fsm
+            m2 = re.search(pat, src_text)
+            if not m2:
+                raise ExtractError(f"find_single_macro / apply_macros_internal: pattern {pat!r} not found")
+            uses.append(m2.group(1))
+        out.append("/-- the places where `find_single_macro` / the loop of `apply_macros_internal` consult the search position -/\n")
+        out.append("def searchPositionUses : List String := " + T.lean_list(lean_str(x) for x in uses) + "\n\n")
+
+
+        # --- the nesting limit of #include (fix 6b8d369) ---------------------------------------------------
+        mm = re.search(r'const MAX_INCLUDE_DEPTH: u32 = (\d+);', pre)
+        if not mm:
+            raise ExtractError("MAX_INCLUDE_DEPTH not found")
+        inc_arm = [r for ps, g, r in match_arms(arms_text) if ps == ['"include"']]
+        if len(inc_arm) != 1:
+            raise ExtractError("include arm not found")
+        ia = normws(inc_arm[0])
+        i_check = ia.find("if file_loader.include_depth >= MAX_INCLUDE_DEPTH { return Err(PreprocessError::IncludeDepthExceeded(command_location)); }")
+        i_load = ia.find("file_loader.load(&file_name, Some(file_id))")
+        i_inc = ia.find("file_loader.include_depth += 1; let result = preprocess_included_file(")
+        i_dec = ia.find("file_loader.include_depth -= 1;")
+        shape_ok = 0 <= i_check < i_load < i_inc < i_dec and "include_depth: 0," in normws(pre)
+        out.append("/-- `MAX_INCLUDE_DEPTH`: an `#include` at nesting depth `>=` this is rejected -/\n")
+        out.append(f"def maxIncludeDepth : Nat := {mm.group(1)}\n\n")
+        out.append("/-- the depth starts at 0, is tested before the file is loaded, and is raised by one around the recursive call -/\n")
+        out.append(f"def includeDepthCheckedBeforeLoad : Bool := {'true' if shape_ok else 'false'}\n\n")
+
         # initial defines go through the `#define` path: each (name, value) becomes the located text "name value",
         # is lexed without a trailing line end, parsed by Macro::parse, and replaces an earlier macro of that name
         pif = normws(fn_body(pre, "preprocess_initial_file"))
